@@ -38,8 +38,19 @@ func checkParsesAs(t *fw.T, tree *gen.Node, lays []NamedLayout, label string) {
 			return map[string]any{"source": src, "layout": l.Name, "expected_tree": want}
 		}
 		var po ParseOut
-		if !t.Guard("parse", wit, func() { po = parse(src, Mode{}) }) {
+		// every third text is parsed by a parser built from a long-lived builder that served other modes before
+		recycled := i%3 == 2
+		if !t.Guard("parse", wit, func() {
+			if recycled {
+				po = parseRecycled(src, t.Index+i)
+			} else {
+				po = parse(src, Mode{})
+			}
+		}) {
 			continue
+		}
+		if recycled {
+			t.Count("texts_parsed_by_a_long_lived_reconfigured_builder", 1)
 		}
 		t.Count("decided", 1)
 		if po.Err != nil || len(po.Errors) > 0 {
